@@ -90,8 +90,8 @@ struct RDbg {
 };
 
 // ---- alphabet ---------------------------------------------------------------------------------------------------------
-struct Act { enum T { SETBP, CLEAR, STEPMODE, EXECUTE, SINGLE, RESET } t; Loc loc; bool val;
-  std::string str() const { switch (t) { case SETBP: return std::string("setBreakPoint(") + loc.first + ":" + std::to_string(loc.second) + "," + (val ? "true" : "false") + ")"; case CLEAR: return "clearBreakpoints()"; case STEPMODE: return std::string("setSteppingMode(") + (val ? "true" : "false") + ")"; case EXECUTE: return "execute()"; case SINGLE: return "executeSingle()"; default: return "reset()"; } } };
+struct Act { enum T { SETBP, CLEAR, STEPMODE, EXECUTE, SINGLE, RESET, ENVBP } t; Loc loc; bool val;
+  std::string str() const { switch (t) { case SETBP: return std::string("setBreakPoint(") + loc.first + ":" + std::to_string(loc.second) + "," + (val ? "true" : "false") + ")"; case CLEAR: return "clearBreakpoints()"; case STEPMODE: return std::string("setSteppingMode(") + (val ? "true" : "false") + ")"; case EXECUTE: return "execute()"; case SINGLE: return "executeSingle()"; case ENVBP: return std::string("[another VM, built from an edited version of the source: setBreakPoint(") + loc.first + ":" + std::to_string(loc.second) + ",true)] setBreakPoint(" + loc.first + ":" + std::to_string(loc.second) + ",true)"; default: return "reset()"; } } };
 
 static std::vector<Loc> choose_locations(const Theo::Program &P, const RDbg &R, size_t maxl) {
   std::vector<Loc> all; for (auto &p : P.potential_breaks) all.push_back({p.first.file, p.first.line});
@@ -118,6 +118,11 @@ static void explore(const Case &c, const std::string &prop, vf::Stats &st, size_
   std::vector<Loc> L = choose_locations(P, R, maxl);
   std::vector<Act> A;
   for (auto &l : L) { A.push_back({Act::SETBP, l, true}); A.push_back({Act::SETBP, l, false}); }
+  // environment: a second machine in the same process, built from an edited version of the same files (one blank line
+  // inserted at the top of the main file, so equal locations name other code positions); it must not influence this one
+  Files sib_files = c.files; if (sib_files.count(c.main)) sib_files[c.main] = "\n" + sib_files[c.main];
+  Theo::CodegenResult sib = Theo::compile(sib_files, c.main);
+  if (sib.generated_correctly) for (auto &l : L) A.push_back({Act::ENVBP, l, true});
   Loc bad1 = {L.empty() ? "main" : L[0].first, 9999}, bad2 = {"no such file", 1};
   A.push_back({Act::SETBP, bad1, true}); A.push_back({Act::SETBP, bad2, true}); A.push_back({Act::SETBP, bad1, false});
   A.push_back({Act::CLEAR, {}, false}); A.push_back({Act::STEPMODE, {}, true}); A.push_back({Act::STEPMODE, {}, false});
@@ -144,7 +149,7 @@ static void explore(const Case &c, const std::string &prop, vf::Stats &st, size_
       const Act &a = A[ai]; Node &src = *nodes[ni]; Model m = src.m; bool defined = true; bool mret = false, site_stop = false; long long msteps = 0;
       // model first: is the action defined (execute must be able to stop)?
       switch (a.t) {
-        case Act::SETBP: mret = avail.count(a.loc) > 0; if (mret) { if (a.val) m.E.insert(a.loc); else m.E.erase(a.loc); } break;
+        case Act::SETBP: case Act::ENVBP: mret = avail.count(a.loc) > 0; if (mret) { if (a.val) m.E.insert(a.loc); else m.E.erase(a.loc); } break;
         case Act::CLEAR: m.E.clear(); break;
         case Act::STEPMODE: m.s = a.val; break;
         case Act::EXECUTE: defined = R.execute(m, msteps, &site_stop); break;
@@ -157,6 +162,7 @@ static void explore(const Case &c, const std::string &prop, vf::Stats &st, size_
       bool rret = false;
       switch (a.t) {
         case Act::SETBP: rret = vm.setBreakPoint(a.loc.first, a.loc.second, a.val); break;
+        case Act::ENVBP: { Theo::VM other(sib.code); other.setBreakPoint(a.loc.first, a.loc.second, true); rret = vm.setBreakPoint(a.loc.first, a.loc.second, true); break; }
         case Act::CLEAR: vm.clearBreakpoints(); break;
         case Act::STEPMODE: vm.setSteppingMode(a.val); break;
         case Act::EXECUTE: { long long guard = 0; bool r = false; while (!r && guard++ < 16LL * (long long)R.T.size() + 64) r = vm.executeSingle();
@@ -180,14 +186,14 @@ static void explore(const Case &c, const std::string &prop, vf::Stats &st, size_
         if (canon(vm) != c0) { viol(ni, &a, "an observer changed the machine state"); continue; }
       }
       if (prop == "C06") {
-        if (a.t == Act::SETBP && rret != mret) { viol(ni, &a, std::string("setBreakPoint returned ") + (rret ? "true" : "false") + " for a location that is " + (mret ? "" : "not ") + "available"); continue; }
+        if ((a.t == Act::SETBP || a.t == Act::ENVBP) && rret != mret) { viol(ni, &a, std::string("setBreakPoint returned ") + (rret ? "true" : "false") + " for a location that is " + (mret ? "" : "not ") + "available"); continue; }
         if (a.t == Act::SINGLE && rret != mret) { viol(ni, &a, std::string("executeSingle returned ") + (rret ? "true" : "false") + ", reference " + (mret ? "true" : "false") + " at position " + std::to_string(src.m.k)); continue; }
         if ((a.t == Act::EXECUTE || a.t == Act::SINGLE) && !(e == want)) { viol(ni, &a, "stopped at ip " + std::to_string(e.ip) + ", the first stop of the reference is ip " + std::to_string(want.ip) + " (position " + std::to_string(m.k) + ")"); continue; }
         std::set<Loc> en; for (auto &b : vm.getEnabledBreakPoints()) en.insert({b.file, b.line});
         if (en != m.E) { viol(ni, &a, "enabled set has " + std::to_string(en.size()) + " locations, reference " + std::to_string(m.E.size())); continue; }
         if (vm.isSteppingModeEnabled() != m.s) { viol(ni, &a, "stepping mode flag differs"); continue; }
         Theo::BreakPoint cb = vm.getCurrentBreak();
-        if (!site_stop && src.stopped_site >= 0 && (a.t == Act::SETBP || a.t == Act::CLEAR || a.t == Act::STEPMODE)) {
+        if (!site_stop && src.stopped_site >= 0 && (a.t == Act::SETBP || a.t == Act::ENVBP || a.t == Act::CLEAR || a.t == Act::STEPMODE)) {
           // still standing on the site it stopped on: toggling breakpoints or stepping must not change the reported location
           auto it = P.line_info.find(src.stopped_site);
           if (cb.file != it->second.file || cb.line != it->second.line) { viol(ni, &a, "still stopped on the site of " + it->second.file + ":" + std::to_string(it->second.line) + " (no execution since the stop) but the current location is now " + cb.file + ":" + std::to_string(cb.line)); continue; }
@@ -218,7 +224,7 @@ static void explore(const Case &c, const std::string &prop, vf::Stats &st, size_
       auto it = index.find(cn);
       if (it == index.end()) {
         if (nodes.size() >= max_states) { st.capped = true; st.add("state_cap_hit"); failed = true; break; }
-        int stopped = site_stop ? want.ip - 1 : ((a.t == Act::SETBP || a.t == Act::CLEAR || a.t == Act::STEPMODE) ? src.stopped_site : -1);
+        int stopped = site_stop ? want.ip - 1 : ((a.t == Act::SETBP || a.t == Act::ENVBP || a.t == Act::CLEAR || a.t == Act::STEPMODE) ? src.stopped_site : -1);
         auto n = std::make_unique<Node>(Node{vm, m, ni, (int)ai, src.depth + 1, stopped}); fix(n->vm);
         maxdepth = std::max(maxdepth, n->depth); index[cn] = (int)nodes.size(); frontier.push_back((int)nodes.size()); nodes.push_back(std::move(n));
       } else if (!(nodes[it->second]->m == m)) {
@@ -231,7 +237,7 @@ static void explore(const Case &c, const std::string &prop, vf::Stats &st, size_
   for (size_t n = 0; n < nodes.size() && !failed; n += 16) {
     std::vector<int> acts; int x = (int)n; while (x > 0) { acts.push_back(nodes[x]->act); x = nodes[x]->parent; } std::reverse(acts.begin(), acts.end());
     Theo::VM vm(P);
-    for (int ai : acts) { const Act &a = A[ai]; switch (a.t) { case Act::SETBP: vm.setBreakPoint(a.loc.first, a.loc.second, a.val); break; case Act::CLEAR: vm.clearBreakpoints(); break; case Act::STEPMODE: vm.setSteppingMode(a.val); break; case Act::EXECUTE: vm.execute(); break; case Act::SINGLE: vm.executeSingle(); break; case Act::RESET: vm.reset(); break; } }
+    for (int ai : acts) { const Act &a = A[ai]; switch (a.t) { case Act::ENVBP: { Theo::VM other(sib.code); other.setBreakPoint(a.loc.first, a.loc.second, true); vm.setBreakPoint(a.loc.first, a.loc.second, true); break; } case Act::SETBP: vm.setBreakPoint(a.loc.first, a.loc.second, a.val); break; case Act::CLEAR: vm.clearBreakpoints(); break; case Act::STEPMODE: vm.setSteppingMode(a.val); break; case Act::EXECUTE: vm.execute(); break; case Act::SINGLE: vm.executeSingle(); break; case Act::RESET: vm.reset(); break; } }
     if (canon(vm) != canon(nodes[n]->vm)) { fprintf(stderr, "ERROR: replay of a recorded history reached a different state (harness nondeterminism)\n"); exit(2); }
     validated++;
   }
